@@ -124,7 +124,8 @@ func sandboxStream(sum *Summary, model *vd.Model, n int, seed int64) {
 		c := genDecide(rng)
 		// no killing actions here (C08 covers them); a killed target is indistinguishable from a failed one
 		for gi := range c.Policy.Groups {
-			if c.Policy.Groups[gi].Action == actKillP {
+			if c.Policy.Groups[gi].Action == actKillP || c.Policy.Groups[gi].Action&0xffff != 0 {
+				// (data-carrying actions have no name in a policy file)
 				c.Policy.Groups[gi].Action = actErrno
 			}
 		}
